@@ -41,6 +41,8 @@ def h_dest(ctx, M, NMAX, ck="crc32"):
             have.add(k)
     late = [k for k in range(M) if fate[k] == 1]
     complete = len(have) == M
+    # time may pass between the Metadata / file data and the EOF: the check timer starts at the EOF
+    w.tick(ctx.int("dt_before_eof", 0, 3))
     o = sc.eof()
     hdst.end_if_other_property(ctx, o)
     fin = [e for e in o.ind if e[0] == "finished"]
@@ -168,7 +170,7 @@ def plan(tier):
 
 
 BOUNDS = {
-    "quick": "unacknowledged mode, closure on/off, CRC-32; file of exactly M=1..3 grid segments (S, L symbolic); every segment independently before the EOF / late / never; check limit symbolic in [1,4] (M<=2) / [1,2] (M=3); after the EOF every interleaving of late segments and ticks (clock advance 0..3 intervals each) until the limit; sender: closure, up to 3 events of tick/Finished",
+    "quick": "unacknowledged mode, closure on/off, CRC-32; file of exactly M=1..3 grid segments (S, L symbolic); every segment independently before the EOF / late / never; 0..3 intervals pass before the EOF; check limit symbolic in [1,4] (M<=2) / [1,2] (M=3); after the EOF every interleaving of late segments and ticks (clock advance 0..3 intervals each) until the limit; sender: closure, up to 3 events of tick/Finished",
     "thorough": "M up to 4, check limit up to 6, CRC-32C as well",
 }
 OUTSIDE = "check limits above Nmax, more than M segments, corrupted late data (C01), acknowledged mode (C04)"
